@@ -408,6 +408,22 @@ def fam_core(rng, tier):
                            {"a": "api", "kind": "DeleteBranch", "branch": "hotfix/4.2.17"},
                            open_pr(3, 'development/4.3'), {"a": "gate", "p": 3},
                            {"a": "finish_queue"}, {"a": "finish_queue"}, {"a": "eval_pr", "p": 2}], core=True))
+    # C03/C05: queue branch names are re-used by a queue rebuild: a green verdict seen on the old commit of
+    # q/w/<pr>/4.3/... says nothing about the new commit of that name
+    for casc in ('A2', 'B3'):
+        out.append(dict(id='core/rebuild-reuses-names/%s' % casc,
+                        world=world(casc, 'queue', {'always_create_integration_pull_requests': False}),
+                        steps=[open_pr(1, 'development/4.3'), {"a": "gate", "p": 1},
+                               open_pr(2, 'development/4.3'), {"a": "gate", "p": 2},
+                               open_pr(3, 'development/4.3'), {"a": "gate", "p": 3},
+                               {"a": "report_queue", "status": "FAILED"},
+                               {"a": "report_queue", "status": "SUCCESSFUL", "only": ["4.3"], "p": 3},
+                               {"a": "eval_commit", "ref": last_q(casc)},
+                               {"a": "decline", "p": 2}, {"a": "eval_pr", "p": 2},
+                               {"a": "api", "kind": "RebuildQueues"}, {"a": "drain"},
+                               {"a": "report_queue", "status": "SUCCESSFUL"},
+                               {"a": "report_queue", "status": "FAILED", "only": ["4.3"], "p": 3},
+                               {"a": "eval_commit", "ref": last_q(casc)}, {"a": "eval_pr", "p": 3}], core=True))
     # C19: a pull request is superseded: another one, branched from its source, is merged; then it is declined
     for mode in ('queue', 'noqueue'):
         out.append(dict(id='core/decline-superseded/%s' % mode, world=world('B3', mode),
